@@ -2,6 +2,7 @@ import PttVerif.Proofs.C02
 import PttVerif.Proofs.C02Pw
 import PttVerif.Proofs.C02Final
 import PttVerif.Proofs.C02Login
+import PttVerif.Gen.LoginSave
 /-
 C02 — Password hashes are crypt(3) DES and verify only the right password.
 Property theorems only (helper lemmas live in Proofs/C02.lean; the model in Model/C02.lean; the hand-written
@@ -489,5 +490,54 @@ theorem recovering_check_accepts_anything (pw : List Nat) :
     simp [CheckPasswd, he, bind, Except.bind]
   exact ⟨this, by rw [this]⟩
 
+
+
+/-! #### a login in flight never undoes a password change that completed meanwhile
+
+`ptt.Login` = `LoginQuery` … `userLogin` (→ `pwcuLoginSave` → `pwcuEnd`, a write of the whole record).  Which record is
+written back is read from the source on every run (`Gen/LoginSave.lean`). -/
+
+/-- source facts (regenerated): `ptt.Login` is `LoginQuery` then `userLogin`; `pwcuLoginSave` writes back a record it
+read itself (`pwcuStart`), not the one its caller loaded for the password check. -/
+theorem loginSave_rereads :
+    Gen.LoginSave.loginSaveRereads = true ∧ Gen.LoginSave.loginCalls = ["LoginQuery", "userLogin"] := by decide
+
+/-- source fact (regenerated): every pwcu setter of package ptt writes back a record it read itself. -/
+theorem pwcu_setters_reread : ∀ r ∈ Gen.LoginSave.writeBackSources, r.2 = "reread" := by decide
+
+open Login in
+/-- with the write-back rule of the source, a login in flight equals the sequential history: its decision is that of
+`LoginQuery` on the store at its start, the operations completing between its halves act as if the login were not
+there, and the login itself leaves the store alone — for every store, user, password and operation list. -/
+theorem login_in_flight_eq_sequential (st : Store) (u pw : List Nat) (mid : List Op) :
+    loginInFlight Gen.LoginSave.loginSaveRereads st u pw mid
+      = ((run st mid).1, (step st (.login u pw)).2, (run st mid).2) := by
+  have h : Gen.LoginSave.loginSaveRereads = true := loginSave_rereads.1
+  rw [h]
+  unfold loginInFlight loginBegin loginEnd
+  simp only [step]
+  cases ofBool (loginQuery st u pw) <;> simp
+
+open Login in
+/-- clause (b) under that schedule: a `ChangePasswd` that succeeds while a login of the same user is in flight decides
+every later login, exactly as if it had run alone. -/
+theorem change_during_login_survives (st st' : Store) (u A old new : List Nat) (num : Nat)
+    (hc : changePasswd st u old new num = .ok (st', true)) :
+    (loginInFlight Gen.LoginSave.loginSaveRereads st u A [.chpw u old new num]).1 = st'
+    ∧ (loginInFlight Gen.LoginSave.loginSaveRereads st u A [.chpw u old new num]).2.2 = [Out.ok] := by
+  rw [login_in_flight_eq_sequential, run_single]
+  simp [step, hc]
+
+open Login in
+/-- the broken rule, as a witness: a login that writes back the record its first half loaded restores the old hash
+over a `ChangePasswd` that reported success meanwhile — afterwards the old password logs in and the new one does not. -/
+theorem carried_record_undoes_change :
+    ∃ (u A B hA : List Nat),
+      let st := [(u, hA)]
+      let r := loginInFlight false st u A [.chpw u A B 0]
+      r.2.1 = Out.ok ∧ r.2.2 = [Out.ok] ∧ r.1 = st
+      ∧ ofBool (loginQuery r.1 u A) = Out.ok ∧ ofBool (loginQuery r.1 u B) = Out.refused
+      ∧ ofBool (loginQuery (run st [.chpw u A B 0]).1 u B) = Out.ok :=
+  ⟨[97, 98], [65], [66], [65, 65, 68, 112, 50, 47, 113, 83, 122, 117, 75, 116, 85, 0], by decide +kernel⟩
 
 end PttVerif.C02.Props
